@@ -135,7 +135,8 @@ func C18_AllRoutes() {
 			verif.Assert(post.RecoverSelector == "", "a session issued by a recovery token implies the token is spent in storage")
 		}
 	}
-	if errOutcome {
+	addsCredentials := route == "POST /otp/add" || route == "POST /2fa/totp/confirm" || route == "POST /2fa/sms/confirm" || route == "POST /2fa/recovery/regen"
+	if errOutcome && !addsCredentials {
 		// a failed request only ever invalidates credentials
 		for _, a := range f.a {
 			post := f.w.Store.Get(a.pid)
@@ -171,11 +172,6 @@ func C18_Middlewares() {
 	_, panicked := f.serveHandler(h, "GET", "/private")
 	if len(plan.fired) > 0 {
 		verif.Reach("fault-injected")
-	}
-	if kind != 0 {
-		// recorded finding: lock.Middleware / confirm.Middleware use LoadCurrentUserP, which is
-		// documented to panic on a storage error
-		verif.KnownRegion("C18-lock-confirm-middleware-panic", len(plan.fired) > 0)
 	}
 	verif.Assert(!panicked, "a backend failure never makes a middleware panic")
 	if panicked {
